@@ -21,11 +21,16 @@ def main():
     ok = ok and r.returncode == 0
     lean_dir = os.path.join(VERIF, 'lean')
     if os.path.isdir(lean_dir) and shutil.which('lean'):
-        for f in sorted(os.listdir(lean_dir)):
-            if f.endswith('.lean'):
-                r = subprocess.run(['lean', os.path.join(lean_dir, f)], capture_output=True, text=True, cwd='/opt/veriftools/mathlib4')
-                status = 'ok' if r.returncode == 0 and 'error' not in r.stdout else 'FAILED'
+        from concurrent.futures import ThreadPoolExecutor
+        files = [f for f in sorted(os.listdir(lean_dir)) if f.endswith('.lean')]
+
+        def run(f):
+            r = subprocess.run(['lean', os.path.join(lean_dir, f)], capture_output=True, text=True, cwd='/opt/veriftools/mathlib4')
+            status = 'ok' if r.returncode == 0 and 'error' not in r.stdout else 'FAILED'
+            with open(os.path.join(VERIF, 'out', 'lean_%s.status' % f), 'w') as fh:
+                fh.write(status + '\n' + r.stdout[-2000:] + r.stderr[-2000:])
+            return f, status
+        with ThreadPoolExecutor(max_workers=4) as ex:      # (most of the time is the Mathlib import)
+            for f, status in ex.map(run, files):
                 print('lean %s: %s' % (f, status))
-                with open(os.path.join(VERIF, 'out', 'lean_%s.status' % f), 'w') as fh:
-                    fh.write(status + '\n' + r.stdout[-2000:] + r.stderr[-2000:])
     return 0 if ok else 1
